@@ -43,7 +43,11 @@ type Result struct {
 	Correspondence     Correspondence `json:"correspondence"`
 	Violations         []Violation    `json:"violations"`
 	Notes              []string       `json:"notes"`
-	Exhaustive         *bool          `json:"exhaustive,omitempty"`
+	// Fatal lists failures of the harness itself (Lean driver did not start or died, a phase
+	// could not run, a probe failed, a child process crashed). The check driver turns each into
+	// a problem, so the run cannot pass: a check that silently lost its tie must not look green.
+	Fatal      []string `json:"fatal,omitempty"`
+	Exhaustive *bool    `json:"exhaustive,omitempty"`
 	// Extra keys are copied verbatim into the evidence coverage object (e.g. "programs",
 	// "disagreements_checked" for translation validation, "states"/"transitions").
 	Extra    map[string]any `json:"extra,omitempty"`
@@ -118,6 +122,15 @@ func (r *Result) SetExtra(key string, v any) {
 		r.Extra = map[string]any{}
 	}
 	r.Extra[key] = v
+	r.mu.Unlock()
+}
+
+// Fatalf records a failure of the harness machinery itself (never use Note for that).
+func (r *Result) Fatalf(format string, a ...any) {
+	r.mu.Lock()
+	if len(r.Fatal) < 50 {
+		r.Fatal = append(r.Fatal, fmt.Sprintf(format, a...))
+	}
 	r.mu.Unlock()
 }
 
